@@ -148,6 +148,77 @@ fn run_doc(rep: &Reporter, lang: &str, doc: &RuleDoc, trees: &[(String, AstGrep<
   }
 }
 
+/// Coherence of repeated variables, checked WITHOUT the implementation's own notion of
+/// "structurally identical": a pattern with a repeated variable (`f($A, $A)`) must match a
+/// node exactly when its linearised version (`f($A, $B)`) matches AND the two captures spell
+/// the same sequence of leaf tokens.
+fn leaf_tokens(n: &ast_grep_core::Node<D>, out: &mut Vec<String>) {
+  let ks = children_vec(n);
+  if ks.is_empty() {
+    if !n.range().is_empty() {
+      out.push(n.text().to_string());
+    }
+    return;
+  }
+  for k in ks {
+    leaf_tokens(&k, out);
+  }
+}
+
+fn linearization(rep: &Reporter, lang: &str, st: &Stats) -> (u64, u64) {
+  use ast_grep_core::Pattern;
+  let spec = spec_by_name(lang).unwrap();
+  let exprs: &[&str] = match lang {
+    "javascript" => &["new F", "new F()", "new F(1)", "new G", "a", "a.b", "(p) => p", "(p, q) => p", "a ? b : c", "[a]", "[a, a]"],
+    "python" => &["a", "a.b", "a[0]", "a[0:1]", "f(a)", "f(a, b)", "(a, b)", "(a, b, c)", "lambda: a", "not a"],
+    _ => &["a", "F {}", "F { x: 1 }", "f(a)", "f(a, b)", "(a, b)", "(a, b, c)", "&a", "a.b"],
+  };
+  let forms: &[(&str, &str, &str)] = &[("f($A, $A)", "f($A, $B)", "f({x}, {y})"), ("$A + $A", "$A + $B", "{x} + {y}"), ("g($A, 1, $A)", "g($A, 1, $B)", "g({x}, 1, {y})")];
+  let (mut cases, mut equal_pairs) = (0u64, 0u64);
+  for (orig, lin, form) in forms {
+    let (Ok(po), Ok(pl)) = (Pattern::try_new(orig, spec.lang), Pattern::try_new(lin, spec.lang)) else { continue };
+    for x in exprs {
+      for y in exprs {
+        let src = format!("{}\n", form.replace("{x}", x).replace("{y}", y));
+        let g = spec.lang.ast_grep(&src);
+        let mut nodes = vec![];
+        all_nodes(&g.root(), &mut nodes);
+        for n in &nodes {
+          cases += 1;
+          let ml = pl.match_node(n.clone());
+          let mo = po.match_node(n.clone()).is_some();
+          let want = match &ml {
+            None => false,
+            Some(nm) => {
+              let (a, b) = (nm.get_env().get_match("A").cloned(), nm.get_env().get_match("B").cloned());
+              match (a, b) {
+                (Some(a), Some(b)) => {
+                  let (mut ta, mut tb) = (vec![], vec![]);
+                  leaf_tokens(&a, &mut ta);
+                  leaf_tokens(&b, &mut tb);
+                  if ta == tb {
+                    equal_pairs += 1;
+                  }
+                  ta == tb
+                }
+                _ => false,
+              }
+            }
+          };
+          if mo != want {
+            rep.violation(
+              &format!("repeated-variable:{}", if mo { "matched-although-occurrences-differ" } else { "rejected-although-occurrences-identical" }),
+              json!({"lang": lang, "pattern": orig, "linearised": lin, "src": src, "node": {"kind": n.kind(), "range": [n.range().start, n.range().end]}}),
+            );
+          }
+        }
+      }
+    }
+  }
+  st.evals.fetch_add(cases, Ordering::Relaxed);
+  (cases, equal_pairs)
+}
+
 fn top_op(r: &R) -> String {
   fn sk(r: &R, d: usize) -> String {
     if d == 0 {
@@ -298,7 +369,9 @@ fn main() {
       }
     }
     docs.par_iter().for_each(|(class, d)| run_doc(&rep, p.lang, d, &trees, &st, class));
-    per_lang.push(json!({"lang": p.lang, "sources": srcs.len(), "max_siblings": k, "rule_documents": docs.len()}));
+    let (lin_cases, lin_equal) = linearization(&rep, p.lang, &st);
+    per_lang.push(json!({"lang": p.lang, "sources": srcs.len(), "max_siblings": k, "rule_documents": docs.len(),
+      "repeated_variable_linearisation_cases": lin_cases, "of_which_captures_spell_identical_tokens": lin_equal}));
   }
   let cov = json!({
     "evaluations": st.evals.load(Ordering::Relaxed),
